@@ -315,7 +315,7 @@ func runCase(c *vh.Ctx, cf *vh.CaseFile, tc txCase) {
 		// e.g. Conway+ reject duplicate members of tagged sets; not this property's business
 		c.Res.Count(tc.Tx, false, e.Name+"/decode-rejected")
 		decodeRejected[e.Name]++
-		if strings.HasPrefix(tc.Label, "corpus") && !strings.Contains(tc.Label, "dup-vkey") && !strings.Contains(tc.Label, "dup-wits-key") {
+		if strings.HasPrefix(tc.Label, "corpus") && !strings.Contains(tc.Label, "dup") {
 			c.Res.Violate("correspondence", "harness-tx-not-decodable", fmt.Sprintf("%s: %s: %v", e.Name, tc.Label, derr), tc)
 		}
 		return
